@@ -509,6 +509,53 @@ func runC11(r *simrt.Run, tier Tier) Outcome {
 			decl = append(decl, extra)
 		}
 		src.WriteString(declOf(name, decl) + "\n" + rule + "\n")
+		// a derived predicate may have base facts as well; they are facts of a
+		// declared predicate like any other (now and then one is off by a sibling type)
+		if r.OneIn(4, "c11.idbfacts") {
+			nf := 1 + r.Choose(2, "c11.idbfacts.n")
+			for k := 0; k < nf; k++ {
+				row := decl[r.Choose(len(decl), "c11.idbfact.row")]
+				var args []string
+				for _, t := range row {
+					tt := t
+					if r.OneIn(4, "c11.idbfact.bad") {
+						tt = sibling(r, t)
+						perturbed = true
+					}
+					args = append(args, genValOf(r, tt).Src())
+				}
+				fmt.Fprintf(&src, "%s(%s).\n", name, strings.Join(args, ", "))
+				nFacts++
+			}
+			r.Probe("derived-predicate-with-base-facts")
+		}
+	}
+	// an undeclared helper with two type alternatives that is used twice: once
+	// joined with a predicate that narrows it, once copied into a predicate
+	// declared with only one of the alternatives. The helper's name sorts
+	// before or after its users (the bounds checker visits predicates by name).
+	if r.OneIn(4, "c11.helper") {
+		base := []tyE{{K: "number"}, {K: "string"}, {K: "name"}, {K: "prefix", Name: "/fruit"}}
+		i1 := r.Choose(len(base), "c11.helper.t1")
+		i2 := (i1 + 1 + r.Choose(len(base)-1, "c11.helper.t2")) % len(base)
+		t1, t2 := base[i1], base[i2]
+		h := []string{"ah", "zh"}[r.Choose(2, "c11.helper.name")]
+		fmt.Fprintf(&src, "Decl hsrc(A0) bound [%s].\nhsrc(%s).\n", t1.Src(), genValOf(r, t1).Src())
+		if r.Bool("c11.helper.rule") {
+			// one alternative from a fact, the other from a rule
+			fmt.Fprintf(&src, "%s(%s).\n%s(X) :- hsrc(X).\n", h, genValOf(r, t2).Src(), h)
+		} else {
+			fmt.Fprintf(&src, "%s(%s).\n%s(%s).\n", h, genValOf(r, t1).Src(), h, genValOf(r, t2).Src())
+		}
+		narrow := fmt.Sprintf("mb(X) :- hsrc(X), %s(X).\n", h)
+		out := fmt.Sprintf("Decl mo(A0) bound [%s].\nmo(X) :- %s(X).\n", t1.Src(), h)
+		if r.Bool("c11.helper.order") {
+			src.WriteString(narrow + out)
+		} else {
+			src.WriteString(out + narrow)
+		}
+		perturbed = true
+		r.Probe("undeclared-helper-used-twice")
 	}
 	text := src.String()
 	r.Logf("program:\n%s", text)
